@@ -509,11 +509,24 @@ def ORD(s):
 
 
 def CLASSARG(p):
-    return p._ghost_classarg
+    return getattr(p, "_ghost_classarg", "<no bracket text recorded for this instance>")
 
 
 def NEGATED(p):
     return p._Class__is_negated
+
+
+def ISCLS(x):
+    import pregex.core.classes as cl
+    return isinstance(x, getattr(cl, "__Class"))
+
+
+def VERBOSE(p):
+    return p._get_verbose_pattern()
+
+
+def GHOSTOP(p):
+    return p._ghost_op
 
 
 BUILTINS = {k: v for k, v in list(globals().items()) if k.isupper() or k in ("Witness",)}
